@@ -126,6 +126,12 @@ void ParallelAction::onReset() {
     AssembleAction::onReset();
 }
 
+void ParallelAction::onFinished(bool is_succ, const Reason &why, const Trace &trace) {
+    //! 有可能不是子动作全部结束引起的finish（如动作超时），这时还在执行的子动作要停掉
+    stopAllActions();
+    AssembleAction::onFinished(is_succ, why, trace);
+}
+
 void ParallelAction::stopAllActions() {
     for (Action *action : children_) {
         action->stop();
